@@ -449,6 +449,14 @@ func ruleParseReset(c *Ctx) {
 				return true
 			}
 			n++
+			// the delete is the whole body: nothing can skip it or leave the loop
+			if len(rs.Body.List) != 1 {
+				okAll = false
+				why = "the reset loop does more than delete the key (an entry can be skipped or the loop left early)"
+			} else if es, ok := rs.Body.List[0].(*ast.ExprStmt); !ok || es.X != ast.Expr(call) {
+				okAll = false
+				why = "the delete is conditional"
+			}
 			// must range over the very map it deletes from, deleting the range key
 			key, _ := rs.Key.(*ast.Ident)
 			arg, _ := ast.Unparen(call.Args[1]).(*ast.Ident)
